@@ -9,6 +9,7 @@
 //        rdv: 0 = plain bodies; k>0 = every body waits (<= 20 ms) until k bodies are inside at once
 //      -> "pf n a0 b0 s0 a1 b1 s1 ... | maxconc M stateconc S nstates K"   (chunks sorted by (a,b))
 //   fe <cat> <n> <N> <maxThreads> <wait>         -> "fe cnt0 cnt1 ... | maxconc M"   (per-element call counts)
+//   l3                                           -> "l3 <CpuSet::l3CacheGroups().size()>"  (machine parameter of the dynamic path)
 #include <dispenso/parallel_for.h>
 #include <dispenso/for_each.h>
 #include <dispenso/thread_pool.h>
@@ -221,6 +222,8 @@ int main() {
       }
     } else if (cmd == "fe") {
       runFe(in);
+    } else if (cmd == "l3") {
+      printf("l3 %zu\n", dispenso::CpuSet::l3CacheGroups().size());
     } else if (cmd.empty()) {
       continue;
     } else {
